@@ -390,17 +390,17 @@ def _build_spk(kind: str, net: str, qs):
     if kind == "p2ms-uncompressed":
         return ScriptPubKey.p2ms(1, pts, net, compressed=False, lexicographic_sorting=False)
     if kind == "p2pkh":
-        return ScriptPubKey.p2pkh(pts[0], net)
+        return ScriptPubKey.p2pkh(pts[0], network=net)
     if kind == "p2sh":
         return ScriptPubKey.p2sh(b"\x51", net)
     if kind == "p2wpkh":
-        return ScriptPubKey.p2wpkh(pts[0], net)
+        return ScriptPubKey(ScriptPubKey.p2wpkh(pts[0]).script, net)  # the builder takes no network
     if kind == "p2wsh":
         return ScriptPubKey.p2wsh(b"\x51", net)
     if kind == "p2tr":
         return ScriptPubKey.p2tr(pts[0], network=net)
     if kind == "nulldata":
-        return ScriptPubKey.nulldata(h, net)
+        return ScriptPubKey(ScriptPubKey.nulldata(h).script, net)  # the builder takes no network
     if kind == "witness_unknown":
         return ScriptPubKey(bytes([0x50 + 2 + qs[0] % 15, 20]) + h, net)
     raise ValueError(kind)
@@ -451,7 +451,7 @@ def _o_prepared_point(w):
             ("b58.p2pkh", b58.p2pkh(pp, net, compr), b58.p2pkh(pt, net, compr)),
             ("b58.p2wpkh_p2sh", b58.p2wpkh_p2sh(pp, net), b58.p2wpkh_p2sh(pt, net)),
             ("b32.p2wpkh", b32.p2wpkh(pp, net), b32.p2wpkh(pt, net)),
-            ("ScriptPubKey.p2pkh", ScriptPubKey.p2pkh(pp, net, compr), ScriptPubKey.p2pkh(pt, net, compr)),
+            ("ScriptPubKey.p2pkh", ScriptPubKey.p2pkh(pp, compr, net), ScriptPubKey.p2pkh(pt, compr, net)),
         ]
     except Exception as e:  # noqa: BLE001
         return False, f"{type(e).__name__}: {e}"
